@@ -66,7 +66,7 @@ def check1d(case):
     rA = [np.array(x, dtype=float) for x in P.disc.rhs(fA)]
     rB = [np.array(x, dtype=float) for x in P.disc.rhs(fB)]
     if not all(np.all(np.isfinite(x)) for x in rA):
-        raise Skip("inadmissible_reconstruction")
+        sim.nonfinite_operator(case["num"])
     if watch is not None and watch.hit and not cases.num_is_first_order(case["num"]):
         raise Skip("burgers sonic-expansion tie (discontinuous flux)")     # reconstructed face values: round-off decides the side of the tie
     if watch is not None:
@@ -156,7 +156,7 @@ def check2d(case):
     rA = [np.array(x, dtype=float) for x in rA]
     rB = [np.array(x, dtype=float) for x in P.disc.rhs(fB)]
     if not all(np.all(np.isfinite(x)) for x in rA):
-        raise Skip("inadmissible_reconstruction")
+        sim.nonfinite_operator(case["num"])
     fs = [float(np.max(x)) for x in sim.natural_scales(P.md, P.prim)]
     dmin = min(P.dx, P.dy)
     for i in range(3):
